@@ -235,7 +235,16 @@ func VerifC15_ConnectLoop() {
 
 type verifEvents struct{}
 
-func (verifEvents) OnNewSnowflakeEvent(e event.SnowflakeEvent) {}
+// what the client binary's PT event logger does with every event: it renders it (pt.Log(..., e.String()));
+// an event that cannot be rendered panics on the connect loop's goroutine and kills the client
+func (verifEvents) OnNewSnowflakeEvent(e event.SnowflakeEvent) {
+	verifEventsSeen++
+	_ = e.String()
+}
+
+var verifEventsSeen int
+
+func verifScrub15(b []byte) []byte { return b }
 
 var (
 	verifPC        *webrtc.PeerConnection
